@@ -238,9 +238,38 @@ fn c02_random(rng: &mut Rng, idx: usize, big: bool) -> (Vec<Vec<usize>>, usize) 
     }
 }
 
+/// gf2.rs: every operator form on every pair, and Sum over every sequence up to length 6
+fn gf2_events(out: &mut Out) {
+    let g = |b: u8| if b == 1 { GF2::one() } else { GF2::zero() };
+    let v = |x: GF2| if x.is_one() { 1 } else { 0 };
+    for a in 0..2u8 { for b in 0..2u8 { for op in ["add", "sub", "mul", "div"] { for form in ["val", "ref", "assign", "assign_ref"] {
+        out.new_case();
+        let r = guarded(|| {
+            let (x, y) = (g(a), g(b));
+            match (op, form) {
+                ("add", "val") => x + y, ("add", "ref") => x + &y, ("add", "assign") => { let mut z = x; z += y; z } ("add", _) => { let mut z = x; z += &y; z }
+                ("sub", "val") => x - y, ("sub", "ref") => x - &y, ("sub", "assign") => { let mut z = x; z -= y; z } ("sub", _) => { let mut z = x; z -= &y; z }
+                ("mul", "val") => x * y, ("mul", "ref") => x * &y, ("mul", "assign") => { let mut z = x; z *= y; z } ("mul", _) => { let mut z = x; z *= &y; z }
+                (_, "val") => x / y, (_, "ref") => x / &y, (_, "assign") => { let mut z = x; z /= y; z } _ => { let mut z = x; z /= &y; z }
+            }
+        });
+        match r {
+            Ok(z) => out.ev("Gf2", "ok", json!({"op": op, "form": form, "a": a, "b": b, "res": v(z), "panicked": false})),
+            Err(_) => out.ev("Gf2", "ok", json!({"op": op, "form": form, "a": a, "b": b, "res": 0, "panicked": true})),
+        }
+    } } } }
+    for len in 0..=6usize { for x in 0u32..(1u32 << len) {
+        out.new_case();
+        let bits: Vec<u8> = (0..len).map(|k| ((x >> k) & 1) as u8).collect();
+        let sum: GF2 = bits.iter().map(|&b| g(b)).sum();
+        out.ev("Gf2Sum", "ok", json!({"bits": bits, "res": v(sum)}));
+    } }
+}
+
 pub fn generate_c02(a: &Args) {
     let mut out = Out::create(&a.out);
     let mut rng = Rng::new(a.seed ^ 0xC02);
+    gf2_events(&mut out);
     let (rmax, nmax) = if is_thorough(a) { (3, 5) } else { (3, 4) };
     let mut rng2 = rng.clone();
     all_matrices(rmax, nmax, |rows, n| enc_event(&mut out, rows, n, &mut rng2));
